@@ -16,6 +16,7 @@ import (
 	_ "verifmc/props/c14"
 	_ "verifmc/props/c15"
 	_ "verifmc/props/c16"
+	_ "verifmc/props/c17"
 	_ "verifmc/props/c18"
 	_ "verifmc/props/c19"
 	_ "verifmc/props/c20"
